@@ -49,12 +49,123 @@ def gen_cases(tier, seed):
             d["retry"] = r.choice([2, 3])
             d["faults"]["flaky"] = r.random() < 0.5
         out.append(d)
+    for i in range(n // 8):
+        # registry runs: a plan function (often the writer behind a chain of dependent sources) raises; nothing that depends on it - no
+        # call, no read of a source behind it, no write - may start, and the error must name a call that failed
+        s = env.seed_for(seed, ID, tier, "registry", i)
+        r = random.Random(env.seed_for(s, "descriptor"))
+        out.append({"seed": s, "mode": "registry", "n": r.randint(3, 18), "W": r.choice([1, 2, 4, 8]), "sched": r.choice(["default", "random"]),
+                    "max_errors": r.choice([0, 1, None, None]), "nfail": r.choice([1, 1, 2, 3]), "prebuilt": r.random() < 0.6,
+                    "perturb": r.choice(["line", "none"])})
     return out
+
+
+def run_registry(desc):
+    import uberjob
+    from vmon import history, rec, regmodel
+
+    rng = random.Random(desc["seed"])
+    rp = regmodel.gen_regplan(rng, desc["n"], cfg={"p_dsrc": 0.3, "p_chain": 0.6})
+    S = regmodel.Session(rp, desc["seed"])
+    H, ir = S.H, S.ir
+    if desc["prebuilt"]:
+        S.run(None, W=2)
+        # make things out of date again: old values stay in the stores (a read that starts too early "works")
+        ps = [i for i in S.reg if rp.role[i] == "psrc"]
+        for i in rng.sample(ps, min(len(ps), rng.randint(1, 2))):
+            S.src_version[i] += 1
+            S.stores[i].set_content(irmod_val(i, S.src_version[i]))
+    out_ids = history.choose_out(rng, S, rng.choice(["all", "sinks", "some"]))
+    exp = S.expect(out_ids, None)
+    cands = [c for c in exp.execs]
+    if not cands:
+        return {"status": "ok", "counters": {"registry_cases_nothing_to_run": 1}, "nontrivial": False}
+    producers = [c for c in cands if rp.role[c] == "producer"]
+    failing = set(rng.sample(producers, min(len(producers), 1)) if producers and rng.random() < 0.7 else [])
+    while len(failing) < min(desc["nfail"], len(cands)):
+        failing.add(rng.choice(cands))
+    excs = {}
+
+    def pre(nid, att):
+        if nid in failing:
+            e = rec.InjectedError(f"n{nid} fails")
+            excs[nid] = e
+            raise e
+
+    H.pre = pre
+    res, exc = S.run(out_ids, W=desc["W"], sched=desc["sched"], perturb=desc["perturb"], seed=desc["seed"], max_errors=desc["max_errors"])
+    H.pre = None
+    preds = S.preds
+    calls = {n.id for n in ir.nodes if n.kind == "call"}
+
+    def eff_anc(i):
+        """what node i depends on IN THIS RUN: dependencies are followed through nodes that execute or are rebuilt, not through stored
+        values that are up to date (those are simply read from their store)"""
+        seen, st = set(), list(preds[i])
+        while st:
+            u = st.pop()
+            if u in seen:
+                continue
+            seen.add(u)
+            if u in S.reg and not exp.ood.get(u):
+                continue
+            st.extend(preds[u])
+        return {u for u in seen if not (u in S.reg and not exp.ood.get(u))}
+
+    raised = {nid for nid in H.raised}
+    bad = None
+    # node of every store operation: store name -> registered node ids sharing that store
+    by_store = {}
+    for i, nm in S.store_name.items():
+        by_store.setdefault(nm, []).append(i)
+    for seq, kind, key, tid, extra in H.events:
+        if kind == "start":
+            hit = eff_anc(key) & calls & failing
+            if hit:
+                bad = f"call n{key} started (seq {seq}) although n{sorted(hit)[0]}, which it depends on, raises in this run"
+                break
+        elif kind in ("rd", "wr"):
+            for i in by_store.get(key, ()):
+                if not exp.ood.get(i):
+                    continue  # an up-to-date stored value is read without waiting for anything upstream: that is not "depending on" the failed call
+                anc = (eff_anc(i) | ({i} if i in calls else set())) & calls & failing
+                # an out-of-date value is rebuilt behind the failed call: its write needs the call, its read (also of a dependent source) the rebuild
+                if anc and all((not exp.ood.get(j)) or ((eff_anc(j) | ({j} if j in calls else set())) & calls & failing) for j in by_store[key]):
+                    bad = (f"store {key} of n{i} was {'read' if kind == 'rd' else 'written'} (seq {seq}) although n{sorted(anc)[0]}, which n{i} depends on, "
+                           f"raises in this run")
+                    break
+            if bad:
+                break
+    if bad is None and raised:
+        if exc is None:
+            bad = f"run returned a value although call(s) {sorted(raised)[:5]} raised"
+        elif type(exc) is not uberjob.CallError:
+            bad = f"run raised {type(exc).__name__} ({exc!r}) instead of CallError"
+        else:
+            nid = getattr(exc.call.fn, "_nid", None)
+            if nid not in raised:
+                bad = f"CallError.call is {getattr(exc.call.fn, '__qualname__', exc.call.fn)!r} (n{nid}), not one of the calls that raised ({sorted(raised)[:6]})"
+            elif exc.__cause__ is not excs.get(nid):
+                bad = f"CallError.__cause__ ({exc.__cause__!r}) is not the exception object raised by n{nid}"
+    res_ = {"status": "ok", "counters": {"registry_faulted_runs": 1, "registry_failing_producers": len(failing & set(producers)), "failed_calls": len(raised),
+                                          "errors_identity_checked": int(bool(raised))},
+            "nontrivial": bool(raised), "sig": hashlib.sha1(("\n".join(S.describe(200)) + f"|reg|{sorted(failing)}|{desc['W']}").encode()).hexdigest()[:16]}
+    if bad:
+        res_.update(status="violation", detail=f"[registry run] {bad}", mechanism="failure-handling", witness={"plan": S.describe(200), "failing": sorted(failing), "history": H.compact_history(400)})
+    return res_
+
+
+def irmod_val(i, v):
+    from vmon import ir as irmod
+
+    return irmod.Val(("src", i), v)
 
 
 def run_case(desc):
     import uberjob
 
+    if desc.get("mode") == "registry":
+        return run_registry(desc)
     R = plainrun.execute(desc, record_args=False)
     ir, H = R.ir, R.H
     calls = set(ir.harness_calls())
